@@ -250,6 +250,7 @@ def product_order_rule(chk, src):
     cur_self = []
     it = SymInterp(src, None, {})
     it.max_depth = 30
+    it.check_asserts = True
 
     class Word(Sym):
         """an operator: ordered word of elementary operator names and a scalar factor"""
@@ -292,8 +293,9 @@ def product_order_rule(chk, src):
         def __neg__(self):
             return Fac(self.names + ("-1",))
 
-    class Scal:
+    class Scal(Sym):
         def __init__(self, name):
+            super().__init__(name)
             self.name = name
 
         def __repr__(self):
@@ -301,6 +303,14 @@ def product_order_rule(chk, src):
 
         def __rtruediv__(self, o):
             return Scal(f"{o}/{self.name}")
+
+    class NpScal(Scal):
+        """a numpy scalar that is not an instance of a Python number type (np.int64, np.float32, ...): only `np.generic` (or a numpy abstract scalar type) recognises it"""
+        def item(self):
+            return Scal(self.name)
+
+        def __rtruediv__(self, o):
+            return NpScal(f"{o}/{self.name}")
 
     class Sum(list):
         def _call(self, q, *a):
@@ -357,7 +367,9 @@ def product_order_rule(chk, src):
                 return True
             if tt is list and isinstance(x, list):
                 return True
-            if tt in (int, float, complex) and (isinstance(x, Scal) or (isinstance(x, (int, float, complex)) and not isinstance(x, bool))):
+            if tt in (int, float, complex) and ((isinstance(x, Scal) and not isinstance(x, NpScal)) or (isinstance(x, (int, float, complex)) and not isinstance(x, bool))):
+                return True
+            if tt in ("np.generic", "np.number", "np.integer") and isinstance(x, NpScal):
                 return True
         return False
 
@@ -365,7 +377,7 @@ def product_order_rule(chk, src):
         return Word(symbol[1], factor.names if isinstance(factor, Fac) else ())
 
     opcls = Sym("Op", product=lambda ops: Word(tuple(l for o in ops for l in o.letters), tuple(x for o in ops for x in o.fac)))
-    it.builtins.update({"isinstance": isinst, "Op": "Op", "OpSum": lambda x=(): Sum(x), "np": Sym("np", generic="np.generic", ndarray="np.ndarray", array_equal=lambda a_, b_: False, array=lambda x: x), "TypeError": lambda *a: Exception("TypeError"),
+    it.builtins.update({"isinstance": isinst, "Op": "Op", "OpSum": lambda x=(): Sum(x), "np": Sym("np", generic="np.generic", number="np.number", integer="np.integer", ndarray="np.ndarray", array_equal=lambda a_, b_: False, array=lambda x: x), "TypeError": lambda *a: Exception("TypeError"),
                         "super": lambda: ListSuper()})
     # `Op` is used both as a class in isinstance and as a constructor / namespace: a callable symbol that compares equal to the tag
     class OpTag(Sym):
@@ -382,6 +394,7 @@ def product_order_rule(chk, src):
     it.builtins["Op"] = tag
     a, b, c, d = (Word((x,)) for x in "abcd")
     k = Scal("k")
+    n_ = NpScal("n")
 
     def words(x):
         xs = x if isinstance(x, list) else [x]
@@ -412,7 +425,12 @@ def product_order_rule(chk, src):
              ("-OpSum", lambda: -Sum([a, b]), sorted([(("a",), ("-1",)), (("b",), ("-1",))])),
              ("OpSum - Op", lambda: Sum([a, b]) - c, sorted([(("a",), ()), (("b",), ()), (("c",), ("-1",))])),
              ("OpSum - OpSum", lambda: Sum([a, b]) - Sum([c, d]), sorted([(("a",), ()), (("b",), ()), (("c",), ("-1",)), (("d",), ("-1",))])),
-             ("OpSum / scalar", lambda: Sum([a, b]) / k, sorted([(("a",), ("1/k",)), (("b",), ("1/k",))]))]
+             ("OpSum / scalar", lambda: Sum([a, b]) / k, sorted([(("a",), ("1/k",)), (("b",), ("1/k",))])),
+             ("numpy scalar * Op", lambda: it.call_function(f["Op.__rmul__"], [a, n_]), sorted([(("a",), ("n",))])),
+             ("Op * numpy scalar", lambda: a * n_, sorted([(("a",), ("n",))])),
+             ("numpy scalar * OpSum", lambda: it.call_function(f["OpSum.__rmul__"], [Sum([a, b]), n_]), sorted([(("a",), ("n",)), (("b",), ("n",))])),
+             ("OpSum * numpy scalar", lambda: Sum([a, b]) * n_, sorted([(("a",), ("n",)), (("b",), ("n",))])),
+             ("OpSum / numpy scalar", lambda: Sum([a, b]) / n_, sorted([(("a",), ("1/n",)), (("b",), ("1/n",))]))]
     for name, run_, want in cases:
         try:
             got = words(run_())
